@@ -382,3 +382,79 @@ Theorem C03_reachable_never_stuck :
         lt3 (pos s) (pos s') \/ (cs_halted s' = true /\ exists o1, precommit_failure (cs_round s) s o1).
 Proof. exact reachable_never_stuck. Qed.
 Print Assumptions C03_reachable_never_stuck.
+
+(* ================================================================== the synchronous round WITH the
+   faulty validators voting during it (C03/FaultyTally.v, SyncFaulty.v, SyncNetF.v): each machine m
+   handles the proposal and its part, then a list L2 m in which the prevotes ALL machines signed
+   occur interleaved with arbitrary further prevotes of this height and round that do not verify
+   under a correct validator's key (any block id or nil, equivocations, duplicates, bad
+   signatures or addresses, any peer), then a list L3 m with the precommits all machines signed,
+   interleaved likewise; the interleavings may differ per machine.  Every machine decides. *)
+From TM Require Import C03.FaultyTally C03.SyncFaulty C03.SyncNetF.
+
+Theorem C03_sync_round_decides_network_faulty :
+  forall (vals : valset) (h r : Z) (p : proposal) (b : block) (hb : N) (ph : psh)
+         (sig : nat -> N -> N) (peer : nat -> N) (ms : list machine) (L2 L3 : machine -> list item),
+    pr_bid p = (hb, ph) -> b_hash b = hb -> b_valid b = true -> fst ph = 1%N ->
+    NoDup (idxs ms) ->
+    (forall m, In m ms -> is_validator (m_env m) = true) ->
+    (forall m, In m ms -> exists a pw, nth_error vals (m_idx m) = Some (a, pw) /\ a <> 0%N /\ 0 <= pw) ->
+    (forall m, In m ms -> ready (m_env m) h r p b hb ph (idxs ms) vals (m_state m)) ->
+    quorum vals <= correct_power vals ms ->
+    powers_nonneg vals ->
+    Model.total_power vals - pw_of vals (idxs ms) < quorum vals ->
+    (forall m, In m ms -> forall pv pc,
+       lookup_round r (hv_sets (cs_votes (m_state m))) = Some (pv, pc) ->
+       extra hb ph (idxs ms) pv /\ extra hb ph (idxs ms) pc) ->
+    (forall m, In m ms ->
+       correct_part (L2 m) = PV vals h p b ph sig peer ms /\
+       (forall v pr, In (Faulty v pr) (L2 m) -> faulty_vote h r (idxs ms) PREVOTE v)) ->
+    (forall m, In m ms ->
+       correct_part (L3 m) = PCF vals h p b ph sig peer ms L2 /\
+       (forall v pr, In (Faulty v pr) (L3 m) -> faulty_vote h r (idxs ms) PRECOMMIT v)) ->
+    forall m, In m ms ->
+      In (ODecide h r hb) (concat (snd (run (m_env m) (m_state m) (scheduleF h p b ph L2 L3 m)))).
+Proof. exact sync_schedule_decides_faulty. Qed.
+Print Assumptions C03_sync_round_decides_network_faulty.
+
+(* the vote-set fact behind it: whatever vote is handed to VoteSet.AddVote, the slots of the
+   correct validators that have not voted stay empty, no majority other than B is recorded (the
+   power outside the correct validators is below the quorum), B's tally does not decrease *)
+Theorem C03_tally_any_vote :
+  forall (B : blockid) (cor : list nat),
+    NoDup cor ->
+    forall (rem : list nat) (vs : voteset) (v : vote),
+      round_inv B cor rem vs ->
+      (forall j, In j rem -> In j cor) ->
+      (forall j, In j cor -> (j < length (vs_vals vs))%nat) ->
+      Model.total_power (vs_vals vs) - pw_of (vs_vals vs) cor < quorum (vs_vals vs) ->
+      (v_ok v = true -> 0 <= v_idx v -> In (Z.to_nat (v_idx v)) cor -> v_bid v = B) ->
+      let i := Z.to_nat (v_idx v) in
+      let '(vs', added, _) := vs_add vs v in
+      round_inv B cor (remove Nat.eq_dec i rem) vs' /\
+      tally B vs <= tally B vs' /\
+      same_frame vs vs' /\
+      (forall m, vs_maj23 vs = Some m -> vs_maj23 vs' = Some m) /\
+      (added = false -> vs_maj23 vs' = vs_maj23 vs).
+Proof. exact vs_add_any. Qed.
+Print Assumptions C03_tally_any_vote.
+
+(* non-vacuity: the network of C03_sync_round_nonvacuous with validator 3 casting, during the
+   round, a nil vote, an equivocating vote for another block and a forged vote in validator 0's
+   name, in both phases: hypotheses proved, decision computed (14 inputs per machine) *)
+Example C03_sync_round_faulty_nonvacuous :
+  ((forall m, In m ex_ms ->
+      correct_part (ex_L2 m) = PV ex_vals 1 ex_p ex_b (1%N, 70%N) ex_sig ex_peer ex_ms /\
+      forall v pr, In (Faulty v pr) (ex_L2 m) -> faulty_vote 1 0 (idxs ex_ms) PREVOTE v) /\
+   (forall m, In m ex_ms ->
+      correct_part (ex_L3 m) = PCF ex_vals 1 ex_p ex_b (1%N, 70%N) ex_sig ex_peer ex_ms ex_L2 /\
+      forall v pr, In (Faulty v pr) (ex_L3 m) -> faulty_vote 1 0 (idxs ex_ms) PRECOMMIT v) /\
+   (forall m, In m ex_ms -> forall pv pc,
+      lookup_round 0 (hv_sets (cs_votes (m_state m))) = Some (pv, pc) ->
+      extra 7%N (1%N, 70%N) (idxs ex_ms) pv /\ extra 7%N (1%N, 70%N) (idxs ex_ms) pc) /\
+   Model.total_power ex_vals - pw_of ex_vals (idxs ex_ms) < quorum ex_vals) /\
+  (forallb (fun m => existsb is_decide
+                       (concat (snd (run (m_env m) (m_state m) (scheduleF 1 ex_p ex_b (1%N, 70%N) ex_L2 ex_L3 m)))))
+           ex_ms = true /\
+   length (scheduleF 1 ex_p ex_b (1%N, 70%N) ex_L2 ex_L3 (ex_machine 0)) = 14%nat).
+Proof. exact (conj ex_faulty_hyps ex_all_decide_faulty). Qed.
